@@ -103,6 +103,13 @@ class Port:
         net = self.network
         if net is None:
             return
+        if self.via_listener:
+            # through the library's own can.Listener, flags and all (it decides what to drop)
+            import can
+            msg = can.Message(arbitration_id=fr.can_id, data=fr.data, is_remote_frame=fr.remote,
+                              is_extended_id=fr.extended, is_error_frame=fr.error, timestamp=fr.ts)
+            net.listeners[0].on_message_received(msg)
+            return
         if fr.remote or fr.error:
             return  # MessageListener drops these
         try:
